@@ -236,7 +236,8 @@ def h_step(P, S):
     if P.get("twin"):
         return False
     if op == "create":
-        kind = S.choice("cfgkind", ["valid", "rejected-by-scheme", "unknown-scheme", "no-scheme", "config-of-existing-service"])
+        kind = S.choice("cfgkind", ["valid", "rejected-by-scheme", "unknown-scheme", "no-scheme", "config-of-existing-service",
+                                    "required-parameter-missing"])
         cfg = _valid_config()
         if kind == "config-of-existing-service":
             # the (salted) configuration file of the service that already exists: same service id, so this would
@@ -256,6 +257,8 @@ def h_step(P, S):
             cfg["scheme"] = "NoSuch.Scheme"
         elif kind == "no-scheme":
             del cfg["scheme"]
+        elif kind == "required-parameter-missing":
+            del cfg["prf_f_output_length"]       # the scheme cannot be instantiated from THIS configuration
         target = sid if S.choice("onto", ["fresh", "existing"]) == "existing" and sid else ""
         out, new_sid = _run_op(fs, rt, target, "create", cfg)
         created_dirs = {d for d in fs.dirs if d.startswith("/home/.sse/client/")} - client_dirs_before
@@ -287,6 +290,9 @@ def h_step(P, S):
     out, _ = _run_op(fs, rt, sid, op, arg)
     if ok != (out == "ok"):
         return S.fail("acceptance:%s flags=%d model=%s got=%s" % (op, flags, ok, out))
+    if not ok and not out.startswith("error:"):
+        # "refused with an error": the caller must see an exception, not a silent return after the server said no
+        return S.fail("not-refused-with-an-error:%s flags=%d got=%s" % (op, flags, out))
     if _flags(fs, sid) != new_flags:
         return S.fail("flags-after-%s:%d expected %d" % (op, _flags(fs, sid), new_flags))
     if not ok and _client_files(fs, sid) != before_files:
@@ -335,6 +341,43 @@ def hb_bits(P, X):
     return X.all(*conds)
 
 
+def h_alias(P, S):
+    """service alias registered once: a second registration of the same alias is refused and changes nothing"""
+    import json
+    import frontend.client.services.service_name_handler as H
+    H.read_service_mapping, H.write_service_mapping = H._get_service_mapping_read_and_write_function()
+    if H.SERVICE_MAPPING_PATH.exists():
+        H.SERVICE_MAPPING_PATH.unlink()
+    model = {}
+    names = ["alpha", "beta"]
+    for step in range(3):
+        fresh = S.bool("fresh%d" % step)
+        if fresh:       # a new process: the in-memory cache is gone, the file stays
+            H.read_service_mapping, H.write_service_mapping = H._get_service_mapping_read_and_write_function()
+        name = names[S.pick("n%d" % step, 0, 1)]
+        sid = "sid-%d" % step
+        try:
+            H.record_sname_id_pair(name, sid)
+            ok = True
+        except KeyError:
+            ok = False
+        if ok != (name not in model):
+            return S.fail("alias-registered-twice" if ok else "fresh-alias-refused")
+        if ok:
+            model[name] = sid
+        for nm in names:
+            try:
+                got = H.get_service_id_by_sname(nm)
+            except KeyError:
+                got = None
+            if got != model.get(nm):
+                return S.fail("alias-lookup")
+        on_disk = json.loads(H.SERVICE_MAPPING_PATH.read_text()) if H.SERVICE_MAPPING_PATH.exists() else {}
+        if on_disk != model:
+            return S.fail("alias-file")
+    return True
+
+
 OPS = ["create", "genkey", "encrypt", "upload_config", "upload_db", "search"]
 
 
@@ -348,5 +391,6 @@ def obligations(tier, seed):
         for v in (True, False):
             obs.append(ob("c11.bits.%d.%s" % (i, v), "harness.c11", "hb_bits", {"i": i, "v": v, "W": 80, "seed": seed},
                           engine="bvx", selftest=5))
+    obs.append(ob("c11.alias", "harness.c11", "h_alias", {"seed": seed}, budget_s=300))
     obs.append(twin("c11.step.twin", "harness.c11", "h_step", {"op": "genkey", "prefixes": [1], "twin": True}))
     return obs
